@@ -297,6 +297,32 @@ def mutation_table():
     return tab, floats, comp, sp
 
 
+def _digest_out(o):
+    """digest of a returned value; wall-clock fields and timing lists are left out"""
+    h = hashlib.sha256()
+
+    def w(x, key=""):
+        if isinstance(x, dict):
+            for k in sorted(x):
+                if "time" in str(k):
+                    continue
+                h.update(str(k).encode())
+                w(x[k], str(k))
+        elif isinstance(x, (list, tuple)):
+            for y in x:
+                w(y, key)
+        elif isinstance(x, np.ndarray):
+            h.update(sha(x).encode())
+        elif hasattr(x, "real") and hasattr(x, "k") and hasattr(x, "shape") and not isinstance(x, (int, float, complex, np.generic)):
+            h.update(sha(x.real.toarray(), x.i.toarray(), x.j.toarray(), x.k.toarray()).encode())
+        elif isinstance(x, (float, np.floating)):
+            h.update(np.float64(x).tobytes())
+        else:
+            h.update(repr(x).encode())
+    w(o)
+    return h.hexdigest()
+
+
 def _mutation_events(tid0):
     tab, floats, comp, sp = mutation_table()
     ev = []
@@ -354,6 +380,35 @@ def _mutation_events(tid0):
             except skip_exc:
                 pass            # a rejected structured input (e.g. LU of a zero matrix) must still leave it untouched
             ev.append({"tid": tid, "ev": "Mutation", "fn": name, "variant": vname, "args_unchanged": [sha(a) for a in qa] == before})
+            if vname == "dense":
+                # what a call RETURNS belongs to the caller: after the caller has overwritten the returned arrays in place,
+                # the same call (same values, fresh argument objects) must still return the same result (no cache or
+                # internal state may be shared with returned arrays)
+                def scribble(o):
+                    if isinstance(o, np.ndarray) and o.size and o.flags.writeable:
+                        try:
+                            o[...] = o * 0 + (np.quaternion(7.0, 1.0, 0.0, 0.0) if o.dtype == np.quaternion else 7)
+                        except Exception:
+                            pass
+                    elif isinstance(o, (tuple, list)):
+                        for x in o:
+                            scribble(x)
+                    elif isinstance(o, dict):
+                        for x in o.values():
+                            scribble(x)
+                try:
+                    outs = []
+                    for rep in range(2):
+                        qb = [q_from_float(a) if a.ndim == 3 else quaternion.as_quat_array(a.copy()) for a in cur]
+                        np.random.seed(5)
+                        with contextlib.redirect_stdout(io.StringIO()):
+                            o_ = f(*qb)
+                        outs.append(_digest_out(o_))
+                        scribble(o_)
+                    tid += 1
+                    ev.append({"tid": tid, "ev": "Returned", "fn": name, "same": outs[0] == outs[1]})
+                except skip_exc:
+                    pass
     for name, f, args in floats + comp:
         tid += 1
         fa = [a.copy() for a in args]
@@ -704,12 +759,12 @@ def run(ctx, replay=None):
         if key in seen:
             continue
         seen.add(key)
-        cls = {"Construct": "history", "Mutation": "mutation-table", "Seeded": "seeded", "Style": "import-style", "Layout": "memory-layout", "Stale": "in-place-update-history"}[head["ev"]]
+        cls = {"Construct": "history", "Mutation": "mutation-table", "Seeded": "seeded", "Style": "import-style", "Layout": "memory-layout", "Stale": "in-place-update-history", "Returned": "caller-overwrites-result"}[head["ev"]]
         ctx.fail(fn, clause, cls, {"events": es[:5]})
     for e in events:
         if e["ev"] != "Construct":
             ctx.case((e["tid"], e.get("step"), e["ev"]))
-    ctx.replays = sum(1 for e in events if e["ev"] in ("Call", "Mutation", "Seeded", "Style", "Layout", "Stale"))
+    ctx.replays = sum(1 for e in events if e["ev"] in ("Call", "Mutation", "Seeded", "Style", "Layout", "Stale", "Returned"))
     ctx.count("SameAsFreshObject", sum(1 for e in events if e["ev"] == "Call"))
     ctx.count("ArgumentsUnchanged", sum(1 for e in events if e["ev"] in ("Call", "Mutation")))
     ctx.sample({"direction": "F", "history": [e for e in events if e["ev"] in ("Construct", "Call")][:4]})
